@@ -113,6 +113,15 @@ CHECKS = {
              "through one instance under the controlled scheduler (all interleavings for small programs). Memory safety itself is delegated to forbid(unsafe_code) (checked textually).",
         design_ref="DESIGN.md section 7, C13",
         technique="Coq proof (append-only chain laws; invariants over all schedules) + sequence and scheduler-controlled co-execution with drop counters"),
+    "C20": dict(
+        text="Machine-checked theorems (Props/C20.v): for every default body (any program over required-method calls), every script, strict or partial, a mock whose required methods replay "
+             "the script by ordered answer clauses, driven through delegation, yields the same results and the same sequence of required-method calls with the same arguments as the plain scripted "
+             "struct (C15 o C04 on the Layer A model), for whole tests interleaving provided and required calls; Termination::report falls through to the real report. Tied to /repo by (1) a wiring "
+             "table regenerated on every run from src/mock/*.rs - every method of every mirrored trait called through the upstream trait on four mocks, re-checked in Coq against the Layer A model "
+             "(MirrorsCheck.v) - and (2) differential random scripts (short, zero, oversized, Interrupted, hard errors, EOF, Pending) through real upstream provided methods on a Unimock versus a plain "
+             "struct, plus the Coq model for the transcribed bodies.",
+        design_ref="DESIGN.md section 7, C20",
+        technique="Coq proof (induction on free-monad programs; assembler and slot invariant) + regenerated wiring table + differential co-execution of scripts"),
 }
 
 NOT_YET = "check not built yet (work in progress in this session; designed in DESIGN.md section 7)"
